@@ -297,7 +297,7 @@ func (e *Engine) assertC(id string, c Value) {
 		}
 		m, ok := e.fullModel()
 		if ok {
-			e.res.Violations = append(e.res.Violations, Violation{Kind: "assert", ID: id, Msg: "assertion concretely false on this path",
+			e.addViolation(Violation{Kind: "assert", ID: id, Msg: "assertion concretely false on this path",
 				Model: m, Strs: e.modelStrs(m), Obs: e.evalObs(m), Path: e.res.Paths + 1})
 		}
 		panic(pathEnd{"violation", id})
@@ -329,7 +329,7 @@ func (e *Engine) assertC(id string, c Value) {
 			e.res.Unsupported = appendUniq(e.res.Unsupported, "solver unknown on assertion "+id)
 			return
 		}
-		e.res.Violations = append(e.res.Violations, Violation{Kind: "assert", ID: id, Msg: "assertion can be false: " + trunc(x.String(), 200),
+		e.addViolation(Violation{Kind: "assert", ID: id, Msg: "assertion can be false: " + trunc(x.String(), 200),
 			Model: m, Strs: e.modelStrs(m), Obs: e.evalObs(m), Path: e.res.Paths + 1})
 		// continue on the side where it holds, if any
 		e.assume(x)
@@ -486,6 +486,12 @@ func init() {
 			e.call(cl.Fn, nil, cl.Env)
 			return Tuple{int64(0), false}
 		},
+		rtPkg + "CaptureStderr": func(e *Engine, _ *ssa.Function, a []Value) Value {
+			cl := a[0].(*Closure)
+			n := len(e.stderr)
+			e.call(cl.Fn, nil, cl.Env)
+			return joinStr(e.stderr[n:])
+		},
 		rtPkg + "LastPanic": func(e *Engine, _ *ssa.Function, a []Value) Value { return e.lastPanic },
 		rtPkg + "Stderr":    func(e *Engine, _ *ssa.Function, a []Value) Value { return joinStr(e.stderr) },
 		rtPkg + "Stdout":    func(e *Engine, _ *ssa.Function, a []Value) Value { return joinStr(e.stdout) },
@@ -623,9 +629,11 @@ func init() {
 			return ""
 		},
 		"(*sync.WaitGroup).Go": func(e *Engine, _ *ssa.Function, a []Value) Value {
-			// run the task immediately (sequential schedule); see C09/C15 harness for the order choice
+			// default: run the task immediately (one sequential schedule). With env wg.defer
+			// the tasks are queued and Wait runs them, in swapped order if env wg.swap is
+			// true (a symbolic boolean explores both orders), each under its own actor.
 			cl := a[1].(*Closure)
-			if e.wgDefer {
+			if e.envGet("wg.defer") == "1" {
 				e.wgTasks = append(e.wgTasks, cl)
 				return nil
 			}
@@ -635,12 +643,21 @@ func init() {
 		"(*sync.WaitGroup).Wait": func(e *Engine, _ *ssa.Function, a []Value) Value {
 			tasks := e.wgTasks
 			e.wgTasks = nil
-			if len(tasks) == 2 && e.wgSwap {
-				tasks[0], tasks[1] = tasks[1], tasks[0]
+			if len(tasks) == 2 {
+				swap := false
+				switch v := e.envGet("wg.swap").(type) {
+				case bool:
+					swap = v
+				case *Term:
+					swap = e.decide(v, "wg.swap")
+				}
+				if swap {
+					tasks[0], tasks[1] = tasks[1], tasks[0]
+				}
 			}
 			for i, cl := range tasks {
 				saved := e.actor
-				if e.wgActors {
+				if e.envGet("wg.actors") == "1" {
 					e.actor = 100 + i
 				}
 				e.call(cl.Fn, nil, cl.Env)
